@@ -162,8 +162,8 @@ class TimeSlice(Contract):
             H0, vH0 = L.g0[name], L.views0[name]
             G, vG = L.ctx.graphs['self'], L.ctx.views['self']
             W = self._window(L)
-            u, v = L.env['u'].z, L.env['v'].z
-            ts = L.env['ts']
+            u, v = L.otv(0).z, L.otv(1).z          # the pair the enclosing loop is visiting
+            ts = L.otv(2)
             EG = G['E'][ts.r]
             k = L.k
             q = z3.Int('q?ii')
@@ -186,7 +186,7 @@ class TimeSlice(Contract):
 
         def inner_hints(L):
             G = L.ctx.graphs['self']
-            ts = L.env['ts']
+            ts = L.otv(2)
             S, E = G['S'][ts.r], G['E'][ts.r]
             k = L.k
             L.ctx.mention(S[k - 1], E[k - 1], S[k], E[k], S[k + 1])
@@ -203,9 +203,9 @@ class TimeSlice(Contract):
         Hname = 'H'
         allc = [c for c in HGraph(Hname, directed, self.cls).comp_names() if c not in ('ER', 'GAttr', 'Frozen')]
         return {
-            'bag:(u, v, ts)': LoopSpec(outer_inv, modifies={Hname: allc}, on_exit=outer_exit, tags=('C06',)),
-            'timeline:(a, b)': LoopSpec(inner_inv, modifies={Hname: allc}, tags=('C06',), assumes=inner_hints),
-            'bag:n': LoopSpec(nodes_inv, modifies={Hname: ['NAttr']}, tags=('C06',)),
+            'bag/3': LoopSpec(outer_inv, modifies={Hname: allc}, on_exit=outer_exit, tags=('C06',)),
+            'timeline/2': LoopSpec(inner_inv, modifies={Hname: allc}, tags=('C06',), assumes=inner_hints),
+            'bag/1': LoopSpec(nodes_inv, modifies={Hname: ['NAttr']}, tags=('C06',)),
         }
 
     def _wn(self, ctx):
